@@ -89,7 +89,7 @@ Definition gstep (w : world) (g : gsys) (ev : gevent) (sel : bool) : gsys * list
       match gclassify w rq with
       | KDecodeErr => (g, [GDecodeErr (r_id rq)])
       | KResp r => (g, [GResp (r_id rq) r])
-      | KTramp h t => let '(s', o) := step (w_cfg w) (get_comp g h) (EvHtlc (htlc_of rq t)) in (put_comp g h s', map (lift_out h) o)
+      | KTramp h t => let '(s', o) := step_htlc (w_cfg w) (get_comp g h) (htlc_of rq t) sel in (put_comp g h s', map (lift_out h) o)
       | KUnknownHash | KPanic => (g, [GOther])
       end
   | GEv h ev =>
